@@ -314,6 +314,11 @@ def copy_case(ctx, seed):
         if rng.random() < 0.4:
             d['handler'] = 'wrap'      # an envelope handler whose prepared form still references the live result
     prog['params'] = {'copy': True}
+    variant = (seed // 3) % 4
+    if variant == 2:
+        prog['params']['rate'] = 0           # never sampled by rate - kept only because the operation enforces sampling
+    elif variant == 3:
+        prog['params']['rate'] = 1e-9
     body = []
     for s in prog['body']:
         body.append(s)
@@ -325,7 +330,14 @@ def copy_case(ctx, seed):
         spy = SpyCassette(box.cassette)
         rec = TapeRecorder(spy)
         rec.enable_recording()
-        live = Built(prog, rec, World(prog['seed_world'], raise_rate=0.0))
+        faults = {}
+        if variant >= 2:
+            from vlib.faultruns import dry_trace
+            mains = [pos for pos, op, dn in dry_trace(prog) if pos[0] == 'main']
+            if mains:
+                faults[rng.choice(mains)] = 'force'
+                ctx.count('copy_cases_kept_by_enforced_sampling_only')
+        live = Built(prog, rec, World(prog['seed_world'], raise_rate=0.0), faults=faults)
         live.snapshot = True
         live.run('live')
         saves = [e for e in spy.log if e[0] == 'save']
@@ -353,6 +365,76 @@ def copy_case(ctx, seed):
                 break
 
 
+def file_case(ctx, seed):
+    """The injected input is a FILE: replayed code that modifies the restored file in place (same length) must not change what a later
+    fetch in the same replay, or a later replay of the recording at the same path, observes."""
+    import os
+    import shutil
+    import tempfile
+    from playback.tape_recorder import TapeRecorder
+    from playback.interception.files.input_file_interception import InputInterceptionFileDataHandler
+    from vlib import genclasses
+    rng = random.Random(seed)
+    kind = ('memory', 'file', 's3')[seed % 3]
+    content = bytes(rng.randrange(256) for _ in range(rng.choice([1, 16, 300, 5000])))
+    static = rng.random() < 0.5
+    nfetch = rng.choice([2, 3])
+    w = {'case_seed': seed, 'cassette': kind, 'file_case': True, 'size': len(content), 'static': static}
+    d = tempfile.mkdtemp(prefix='vp-c11f-')
+    try:
+        with open_box(kind) as box:
+            spy = SpyCassette(box.cassette)
+            rec = TapeRecorder(spy)
+            rec.enable_recording()
+            handler = InputInterceptionFileDataHandler(0 if static else 1, 'file_path')
+            bodies = [0]
+
+            def fetch_body(file_path):
+                bodies[0] += 1
+                with open(file_path, 'wb') as f:
+                    f.write(content)
+                return file_path
+            ns = {}
+            if static:
+                ns['fetch'] = staticmethod(rec.static_intercept_input('c11.fetch', data_handler=handler, capture_args=[])(lambda file_path: fetch_body(file_path)))
+            else:
+                ns['fetch'] = rec.intercept_input('c11.fetch', data_handler=handler, capture_args=[])(lambda self, file_path: fetch_body(file_path))
+            seen = []
+
+            def execute(self, path):
+                for i in range(nfetch):
+                    got = self.fetch(path)
+                    with open(got, 'rb') as f:
+                        seen.append(f.read())
+                    with open(got, 'r+b') as f:          # in-place edit that keeps the length (status flag, header patch ...)
+                        f.write(bytes([(content[0] + 1 + i) % 256]))
+                return nfetch
+            ns['execute'] = rec.operation()(execute)
+            cls = genclasses.register(type('C11File%d' % (seed % 100000), (object,), ns))
+            path = os.path.join(d, 'in.bin')
+            cls().execute(path)
+            saves = [e for e in spy.log if e[0] == 'save']
+            if len(saves) != 1 or seen != [content] * nfetch:
+                ctx.count('file_cases_not_saved')
+                return
+            ctx.case(w)
+            nb = bodies[0]
+            rec.tape_cassette = box.reader()
+            for rnd in range(2):
+                del seen[:]
+                rec.play(saves[0][2], lambda recording: cls().execute(path))
+                for i, got in enumerate(seen):
+                    ctx.count('restored_files_checked')
+                    if got != content:
+                        ctx.violation('an injected input file modified in place by replayed code was observed modified by a later %s' % (
+                            'fetch of the same replay' if rnd == 0 else 'replay of the same recording'), dict(w, replay=rnd + 1, fetch=i + 1))
+                        return
+            if bodies[0] != nb:
+                ctx.violation('file input body executed during replay', w)
+    finally:
+        shutil.rmtree(d, ignore_errors=True)
+
+
 def run(ctx):
     base = ctx.seed * 1000003 + ctx.shard * 1000000
     for i in range(ctx.budget(300, 10000)):
@@ -363,6 +445,8 @@ def run(ctx):
         copy_case(ctx, base + i)
     for i in range(ctx.budget(60, 3000)):
         exception_case(ctx, base + i)
+    for i in range(ctx.budget(40, 1500)):
+        file_case(ctx, base + i)
     concurrent_reads(ctx)
     if not ctx.quick and ctx.shard == 0:
         from vlib.repo_tests import run_under_monitors
@@ -385,3 +469,4 @@ def replay(ctx, w):
     replay_case(ctx, s)
     copy_case(ctx, s)
     exception_case(ctx, s)
+    file_case(ctx, s)
